@@ -283,7 +283,20 @@ func CheckC07(c C07Case, rec *Rec) error {
 		}
 		return nil
 	}
-	opts := &neat.Options{ExcessCoeff: c.Excess, DisjointCoeff: c.Disjoint, MutdiffCoeff: c.Mutdiff, CompatThreshold: c.Thr, PopSize: 10, DropOffAge: 15}
+	// the options object has a past: it served distance computations under other coefficients (both methods) before it
+	// received this case's coefficients - in place, or as a by-value copy of the used object
+	used := &neat.Options{ExcessCoeff: c.Excess + 1, DisjointCoeff: c.Disjoint + 2, MutdiffCoeff: c.Mutdiff + 3, CompatThreshold: c.Thr + 1, PopSize: 10, DropOffAge: 15}
+	for _, method := range []neat.GenomeCompatibilityMethod{neat.GenomeCompatibilityMethodLinear, neat.GenomeCompatibilityMethodFast} {
+		used.GenCompatMethod = method
+		_ = a.VerifCompatibility(b, used)
+	}
+	_ = used.NeatContext()
+	opts := used
+	if (len(c.A)+len(c.B))%2 == 1 {
+		cp := *used
+		opts = &cp
+	}
+	opts.ExcessCoeff, opts.DisjointCoeff, opts.MutdiffCoeff, opts.CompatThreshold = c.Excess, c.Disjoint, c.Mutdiff, c.Thr
 	if c.Thr > 0 {
 		rec.Class("options carry a positive compatibility threshold")
 	}
